@@ -9,7 +9,7 @@ from typing import Any, Dict, Iterator, List, Optional, Tuple
 
 from harness import schema_scen
 
-CHAR = {"a": "a", "b": "b", "c": "c", "eacute": "é", "grin": "\U0001F600"}
+CHAR = {k: chr(v) for k, v in schema_scen.CHAR_CP.items()}
 
 
 # ---------------------------------------------------------------------------------------------
